@@ -564,6 +564,11 @@ func (c *C) Noop() error {
 // Close sends the QUIT command, if it fails - it directly closes the
 // connection.
 func (c *C) Close() error {
+	if c.cl == nil {
+		// Not connected or closed already.
+		return nil
+	}
+
 	c.cl.CommandTimeout = 5 * time.Second
 
 	if err := c.cl.Quit(); err != nil {
@@ -581,7 +586,12 @@ func (c *C) Close() error {
 			c.Log.Error("QUIT error", c.wrapClientErr(err, c.serverName))
 		}
 
-		return c.cl.Close()
+		// The object is disconnected whether or not the server said goodbye:
+		// callers use Client() == nil to tell.
+		err := c.cl.Close()
+		c.cl = nil
+		c.serverName = ""
+		return err
 	}
 
 	c.cl = nil
@@ -593,6 +603,9 @@ func (c *C) Close() error {
 // DirectClose closes the underlying connection without sending the QUIT
 // command.
 func (c *C) DirectClose() error {
+	if c.cl == nil {
+		return nil
+	}
 	c.cl.Close()
 	c.cl = nil
 	c.serverName = ""
